@@ -51,7 +51,9 @@ class Facts:
         cg=None,
         unit=None,
         taskvars: Iterable[str] = (),
+        ignore_writes: Iterable[str] = (),
     ):
+        self.ignore_writes = set(ignore_writes)  # attribute names whose writes never invalidate a tracked atom (stated by the rule)
         # names of module-level ContextVars: `NAME.get()` is task-local, so only an explicit write to NAME in this
         # task invalidates it (awaits and opaque callbacks do not: user handlers do not touch private bus state)
         self.taskvars = set(taskvars)
@@ -85,7 +87,7 @@ class Facts:
             for a in nonlocal_atoms:
                 del env[a]
             return
-        written = self.cg.stmt_writes(st, self.unit)
+        written = self.cg.stmt_writes(st, self.unit) - self.ignore_writes
         if not written:
             return
         for a in nonlocal_atoms:
@@ -96,6 +98,20 @@ class Facts:
     def atom_of(self, e: ast.AST) -> str | None:
         s = U(e)
         return s if self.tracked(s) else None
+
+    def cmp_atom(self, e: ast.AST) -> tuple[str, bool] | None:
+        """`a == b` / `a != b` / `a in b` / `a not in b` as one atom (canonical positive form) + negation flag."""
+        if isinstance(e, ast.Compare) and len(e.ops) == 1:
+            op = e.ops[0]
+            pos = {ast.Eq: '==', ast.NotEq: '==', ast.In: 'in', ast.NotIn: 'in', ast.Is: 'is', ast.IsNot: 'is'}.get(type(op))
+            if pos is None:
+                return None
+            if isinstance(op, (ast.Is, ast.IsNot)) and isinstance(e.comparators[0], ast.Constant) and e.comparators[0].value is None:
+                return None
+            text = f'{U(e.left)} {pos} {U(e.comparators[0])}'
+            if self.tracked(text):
+                return text, isinstance(op, (ast.NotEq, ast.NotIn, ast.IsNot))
+        return None
 
     def eval(self, e: ast.AST, env: dict) -> bool | None:
         c = const_value(e)
@@ -130,6 +146,10 @@ class Facts:
                 if is_none is None:
                     return None
                 return is_none if isinstance(op, ast.Is) else (not is_none)
+        ca = self.cmp_atom(e)
+        if ca is not None:
+            t = truth_of(env.get(ca[0]))
+            return None if t is None else (t != ca[1])
         a = self.atom_of(e)
         if a is not None:
             return truth_of(env.get(a))
@@ -152,8 +172,10 @@ class Facts:
                     env = env2
                 return env
             # (and, False) / (or, True): if all operands but one are decided the other way, the last is forced
-            undecided = [v for v in e.values if self.eval(v, env) is None]
-            if len(undecided) == 1:
+            vals = [(v, self.eval(v, env)) for v in e.values]
+            undecided = [v for v, r in vals if r is None]
+            others_neutral = all(r is None or r == (not truth) for _, r in vals)  # and: the rest are True; or: the rest are False
+            if len(undecided) == 1 and others_neutral and len([1 for _, r in vals if r is not None]) == len(vals) - 1:
                 return self.assume(undecided[0], truth, env)
             return env
         if isinstance(e, ast.Compare) and len(e.ops) == 1:
@@ -174,6 +196,14 @@ class Facts:
                     if v is None:
                         env[a] = 'NN'
                 return env
+            ca = self.cmp_atom(e)
+            if ca is None:
+                return env
+            want = truth != ca[1]
+            v = env.get(ca[0])
+            if truth_of(v) is not None and truth_of(v) != want:
+                return None
+            env[ca[0]] = 'T' if want else 'F'
             return env
         a = self.atom_of(e)
         if a is None:
@@ -213,11 +243,21 @@ class Facts:
             elif isinstance(st, ast.AugAssign):
                 targets, value = [st.target], None
             for t in targets:
-                for sub in ast.walk(t):
-                    if isinstance(sub, ast.Name):
-                        self._kill_mentions(env, sub.id)
-                if isinstance(t, (ast.Attribute,)):
-                    env.pop(U(t), None)
+                flat = list(t.elts) if isinstance(t, (ast.Tuple, ast.List)) else [t]
+                for tt in flat:
+                    if isinstance(tt, ast.Name):
+                        self._kill_mentions(env, tt.id)  # rebinding a local
+                    elif isinstance(tt, ast.Attribute):
+                        txt = U(tt)
+                        for a in list(env):
+                            if a == txt or a.startswith(txt + '.') or a.startswith(txt + '[') or (txt + '.') in a or (txt + ' ') in a or a.endswith(txt):
+                                if txt not in self.ignore_writes and tt.attr not in self.ignore_writes:
+                                    del env[a]
+                    elif isinstance(tt, ast.Subscript):
+                        txt = U(tt.value)
+                        for a in list(env):
+                            if txt in a:
+                                del env[a]
             if len(targets) == 1 and value is not None:
                 a = self.atom_of(targets[0])
                 if a is not None:
